@@ -28,7 +28,7 @@ D1(z) == Atoms \cup Lists(Atoms, MaxItems) \cup Dicts(Keys1, Atoms, MaxItems)   
 D1small(z) == Atoms \cup Lists(Atoms, 1) \cup Dicts(Keys1, Atoms, 1)
 D1tiny(z) == Atoms \cup Lists(Atoms, 1)
 D2(z) == D1(z) \cup Lists(D1small(z), MaxItems) \cup Dicts(Keys1, D1small(z), 1) \cup Dicts(Keys1, D1tiny(z), MaxItems)
-Universe == IF Mode = "keys" THEN {} ELSE IF Depth = 1 THEN D1(0) ELSE D2(0)
+Universe == IF Mode \in {"keys", "bytes"} THEN {} ELSE IF Depth = 1 THEN D1(0) ELSE D2(0)
 
 \* text that may follow an encoded value (the key continues after the flattened keywords)
 Tails == {<<>>, <<49>>, <<cS>>, <<49, cS, 49>>, <<NUL, 49, cI>>, <<cMinus, 49, cI>>, <<48, cD>>}
@@ -50,7 +50,16 @@ KeyRoundTrip == st.mode = "k" =>
     LET u == UnKey(Key(Ver, Ver, st.x.pre, st.x.kw, st.x.src)) IN
     u.ok /\ u.preamble = st.x.pre /\ u.kwds = st.x.kw /\ u.sources = st.x.src
 
+\* ---- bytes: the encoding step of the key is injective (read back through a UTF-8 decoder); the strings are
+\* long enough to spell a character's escape sequence ("\xe9" next to the character itself)
+ByteInputs == IF Mode = "bytes" THEN Seqs(Alpha, MaxStr) ELSE {}
+BytesRoundTrip == st.mode = "b" =>
+    LET kb == KeyBytes(Ver, Ver, st.x, [t |-> "d", v |-> <<>>], <<>>)
+        u == UnKey(Utf8Dec(kb))
+    IN u.ok /\ u.preamble = st.x /\ u.sources = <<>> /\ \A i \in DOMAIN kb : kb[i] \in 0..255
+
 Init == \/ Mode = "values" /\ st \in [mode : {"v"}, x : Universe]
+        \/ Mode = "bytes" /\ st \in [mode : {"b"}, x : ByteInputs]
         \/ Mode = "keys" /\ st \in [mode : {"k"}, x : KeyInputs]
         \/ Mode = "dump" /\ st \in [mode : {"dump"}, x : {0}]
 Next == UNCHANGED st
